@@ -30,10 +30,10 @@ func statScenario(rt ring.Type, logN int, ch rk.Chain, np int) engine.Scenario {
 	return engine.Scenario{Name: name, Bound: -1, Fn: func(c *engine.Chooser) {
 		n := 1 << logN
 		xsI := c.Choose(4, "Xs")
-		xeI := c.Choose(3, "Xe")
+		xeI := c.Choose(len(xeFor(ch)), "Xe")
 		pk := c.Choose(2, "key") == 1
 		isNTT := c.Choose(2, "IsNTT") == 0
-		p := rk.Params(ch.Lit(logN, maxLogN, rt, true, xsAlphabet(n)[xsI], xeAlphabet()[xeI]))
+		p := rk.Params(ch.Lit(logN, maxLogN, rt, true, xsAlphabet(n)[xsI], xeFor(ch)[xeI]))
 		cfg := fmt.Sprintf("Xs=%s Xe=%s pk=%v IsNTT=%v", rk.DistName(p.Xs()), rk.DistName(p.Xe()), pk, isNTT)
 		c.Note("%s", cfg)
 		c.Cover("stat-Xe", rk.DistName(p.Xe()))
